@@ -16,6 +16,25 @@ from . import api
 from . import ty as T
 
 
+# id(snapshot copy made for old(...)) -> the original object: object IDENTITY survives old() (the logic compares
+# references; natively old() has to deep-copy because the real objects are mutated in place)
+_ORIG: dict = {}
+
+
+def unwrap(x):
+    return object.__getattribute__(x, "_obj") if isinstance(x, Proxy) else x
+
+
+def canon(x):
+    x = unwrap(x)
+    return _ORIG.get(id(x), x)
+
+
+def same(a, b):
+    """`a is b` of the clause language: identity of the underlying objects (through proxies and old()-snapshots)."""
+    return canon(a) is canon(b)
+
+
 class Proxy:
     """Abstract view of a real object through a ClassSpec (`views`: field -> callable)."""
 
@@ -28,21 +47,32 @@ class Proxy:
         obj = object.__getattribute__(self, "_obj")
         if name in cs.views:
             return cs.views[name](obj)
+        if name.startswith("__") and name.endswith("__"):
+            raise AttributeError(name)  # copy/pickle protocol probes must not reach the wrapped object
         v = getattr(obj, name)
         ft = cs.fields.get(name)
-        if isinstance(ft, T.Opt):
-            ft = ft.inner
-        if isinstance(ft, T.Ref) and ft.cls in api.CLASSES and v is not None and not isinstance(v, Proxy):
-            return Proxy(v, api.CLASSES[ft.cls])  # nested objects are seen through their own class vocabulary
+        if ft is not None:
+            return wrap(v, ft)  # nested objects (also inside lists / dicts / tuples) are seen through their own class vocabulary
         return v
 
+    def __deepcopy__(self, memo):
+        return Proxy(copy.deepcopy(object.__getattribute__(self, "_obj"), memo), object.__getattribute__(self, "_cs"))
+
     def __eq__(self, o):
-        a = object.__getattribute__(self, "_obj")
-        b = object.__getattribute__(o, "_obj") if isinstance(o, Proxy) else o
-        return a is b
+        return canon(self) is canon(o)
+
+    def __ne__(self, o):
+        return canon(self) is not canon(o)
 
     def __hash__(self):
-        return id(object.__getattribute__(self, "_obj"))
+        return id(canon(self))
+
+    @property
+    def __class__(self):  # isinstance(proxy, RealClass) holds (type(proxy) is still Proxy)
+        return type(object.__getattribute__(self, "_obj"))
+
+    def __bool__(self):
+        return bool(object.__getattribute__(self, "_obj"))
 
     def __getitem__(self, k):
         return object.__getattribute__(self, "_obj")[k]
@@ -96,23 +126,169 @@ def parse_clause(src):
     return tree
 
 
+def _target_names(t):
+    return {n.id for n in ast.walk(t) if isinstance(n, ast.Name)}
+
+
 class _OldRewriter(ast.NodeTransformer):
+    """old(e) -> __oldK (a value computed in the pre-state).  When `e` mentions variables bound by an enclosing
+    comprehension / quantifier of the clause, old(e) becomes the call __oldK(v1, ..) of a pre-state FUNCTION of
+    those variables (evaluated against a snapshot of the arguments taken before the call).
+    `a is b` / `a is not b` between non-constants become identity of the underlying objects (rt.same)."""
+
     def __init__(self):
-        self.olds = []
+        self.olds = []  # (expression, [bound variable names])
+        self.scopes = []
+
+    def _comp(self, node):
+        names = set()
+        for g in node.generators:
+            names |= _target_names(g.target)
+        # the first iterable is evaluated in the enclosing scope
+        node.generators[0].iter = self.visit(node.generators[0].iter)
+        self.scopes.append(names)
+        try:
+            for i, g in enumerate(node.generators):
+                if i:
+                    g.iter = self.visit(g.iter)
+                g.ifs = [self.visit(c) for c in g.ifs]
+            if isinstance(node, ast.DictComp):
+                node.key = self.visit(node.key)
+                node.value = self.visit(node.value)
+            else:
+                node.elt = self.visit(node.elt)
+        finally:
+            self.scopes.pop()
+        return node
+
+    visit_GeneratorExp = visit_ListComp = visit_SetComp = visit_DictComp = _comp
+
+    def visit_Lambda(self, node):
+        self.scopes.append({a.arg for a in node.args.args})
+        try:
+            node.body = self.visit(node.body)
+        finally:
+            self.scopes.pop()
+        return node
+
+    def visit_Compare(self, node):
+        self.generic_visit(node)
+        if len(node.ops) == 1 and isinstance(node.ops[0], (ast.Is, ast.IsNot)):
+            r = node.comparators[0]
+            if not (isinstance(r, ast.Constant) or isinstance(node.left, ast.Constant)):
+                call = ast.Call(func=ast.Name(id="__same", ctx=ast.Load()), args=[node.left, r], keywords=[])
+                if isinstance(node.ops[0], ast.IsNot):
+                    call = ast.UnaryOp(op=ast.Not(), operand=call)
+                return ast.copy_location(call, node)
+        return node
 
     def visit_Call(self, node):
         if isinstance(node.func, ast.Name) and node.func.id == "old" and len(node.args) == 1:
             k = len(self.olds)
-            self.olds.append(node.args[0])
+            e = node.args[0]
+            bound = set().union(*self.scopes) if self.scopes else set()
+            used = sorted({n.id for n in ast.walk(e) if isinstance(n, ast.Name)} & bound)
+            self.olds.append((e, used))
+            if used:
+                call = ast.Call(func=ast.Name(id=f"__old{k}", ctx=ast.Load()), args=[ast.Name(id=u, ctx=ast.Load()) for u in used], keywords=[])
+                return ast.copy_location(call, node)
             return ast.copy_location(ast.Name(id=f"__old{k}", ctx=ast.Load()), node)
         return self.generic_visit(node)
 
 
+class _OldFn:
+    """old(e) with bound variables: e evaluated in a pre-state snapshot, with the bound variables supplied later
+    (objects among them are translated to their snapshot copies, so that their PRE-state fields are read)."""
+
+    def __init__(self, expr, names, snap_env, memo):
+        self.code = compile(ast.fix_missing_locations(ast.Expression(expr)), "<old>", "eval")
+        self.names = names
+        self.env = snap_env
+        self.memo = memo
+
+    def __call__(self, *args):
+        e = dict(self.env)
+        for n, a in zip(self.names, args):
+            raw = unwrap(a)
+            cp = self.memo.get(id(raw))
+            if cp is not None:
+                a = Proxy(cp, object.__getattribute__(a, "_cs")) if isinstance(a, Proxy) else cp
+            e[n] = a
+        return eval(self.code, e)
+
+
+def _native_fresh(pre_ids):
+    def fresh(x):
+        """fresh(x): the object did not exist (was not reachable from the arguments) before the call"""
+        return id(canon(x)) not in pre_ids
+
+    return fresh
+
+
+def _reachable_ids(roots, limit=200000):
+    """ids of the objects reachable from the arguments (attributes, container elements) + the objects themselves
+    (kept alive by the caller for the duration of the case, so ids are not reused)."""
+    seen = {}
+    stack = [unwrap(r) for r in roots]
+    while stack and len(seen) < limit:
+        o = stack.pop()
+        if id(o) in seen or isinstance(o, (int, float, str, bytes, bool, type(None), type)):
+            continue
+        seen[id(o)] = o
+        try:
+            if isinstance(o, dict):
+                stack.extend(o.keys())
+                stack.extend(o.values())
+            elif isinstance(o, (list, tuple, set, frozenset)):
+                stack.extend(o)
+            else:
+                d = getattr(o, "__dict__", None)
+                if isinstance(d, dict):
+                    stack.extend(d.values())
+                for sl in getattr(type(o), "__slots__", ()) or ():
+                    if isinstance(sl, str) and hasattr(o, sl):
+                        stack.append(getattr(o, sl))
+        except Exception:  # noqa
+            continue
+    return seen
+
+
+def _has_ref(t):
+    if isinstance(t, T.Ref):
+        return t.cls in api.CLASSES
+    if isinstance(t, (T.Opt,)):
+        return _has_ref(t.inner)
+    if isinstance(t, (T.List, T.Set)):
+        return _has_ref(t.elem)
+    if isinstance(t, (T.Dict, T.Map)):
+        return _has_ref(t.v) or _has_ref(t.k)
+    if isinstance(t, T.Tuple):
+        return any(_has_ref(i) for i in t.items)
+    return False
+
+
 def wrap(v, t):
-    if isinstance(t, T.Ref) and t.cls in api.CLASSES and not isinstance(v, Proxy):
-        return Proxy(v, api.CLASSES[t.cls])
-    if isinstance(t, T.Opt) and v is not None:
+    """The real value `v` seen at declared type `t`: objects of declared classes become proxies, also below
+    the top level (elements of lists / tuples / sets, values of dicts, Optional)."""
+    if v is None or isinstance(v, Proxy):
+        return v
+    if isinstance(t, T.Ref):
+        return Proxy(v, api.CLASSES[t.cls]) if t.cls in api.CLASSES else v
+    if isinstance(t, T.Opt):
         return wrap(v, t.inner)
+    if not _has_ref(t):
+        return v
+    try:
+        if isinstance(t, T.List) and isinstance(v, (list, tuple)):
+            return type(v)(wrap(x, t.elem) for x in v) if type(v) in (list, tuple) else [wrap(x, t.elem) for x in v]
+        if isinstance(t, T.Set) and isinstance(v, (set, frozenset)):
+            return {wrap(x, t.elem) for x in v}
+        if isinstance(t, (T.Dict, T.Map)) and isinstance(v, dict):
+            return {wrap(k, t.k): wrap(x, t.v) for k, x in v.items()}
+        if isinstance(t, T.Tuple) and isinstance(v, tuple) and len(v) == len(t.items) and type(v) is tuple:
+            return tuple(wrap(x, it) for x, it in zip(v, t.items))
+    except Exception:  # noqa  -- an exotic container: leave it as it is
+        return v
     return v
 
 
@@ -120,8 +296,20 @@ def base_env(c: api.FnContract):
     env = {"implies": implies, "iff": iff, "ite": ite, "elems": elems, "distinct": distinct}
     for n, sf in api.SPECFNS.items():
         env[n] = sf.fn
+    from .core import Val
+
     for n, g in c.globals.items():
+        if isinstance(g, Val) and not callable(g):
+            # a symbolic-side binding (trusted model / typed symbol): it means nothing natively.  Constants are
+            # unwrapped; anything else is left out, so that a re-bound builtin (`len`, `any`, ..) is the real one.
+            from .ops import _has_val
+
+            if g.is_py and isinstance(g.py, (int, float, str, bool, type(None), tuple, list, dict, set, frozenset)) and not _has_val(g.py):
+                env[n] = g.py
+            continue
         env[n] = g
+    env.setdefault("allocated", lambda x: True)
+    env["__same"] = same
     return env
 
 
@@ -153,32 +341,51 @@ def run_case(c: api.FnContract, args: dict, call=None):
         if isinstance(t, api.Const) and n not in args:
             args[n] = t.value
             pre_args[n] = t.value
+    _ORIG.clear()
+    pre_objs = _reachable_ids(list(args.values()))
+    env0.setdefault("fresh", _native_fresh(set(pre_objs)))
     env = dict(env0)
     env.update(pre_args)
+
+    def _prep(src, what):
+        rw = _OldRewriter()
+        tree = rw.visit(parse_clause(src))
+        ast.fix_missing_locations(tree)
+        return rw, compile(tree, what, "eval")
+
     for r in c.requires:
         try:
-            if not eval(compile(parse_clause(r), "<requires>", "eval"), env):
+            if not eval(_prep(r, "<requires>")[1], env):
                 return {"status": "skip"}
         except Exception as e:  # noqa
             return {"status": "skip", "detail": f"requires raised {e!r}"}
     # pre-evaluate old(...) sub-expressions and raises-conditions in the pre-state
     compiled = {}
-    oldvals = {}
+    memo = {}  # one memo for every snapshot of this case: shared sub-objects stay shared, identities can be mapped back
+    snap_env = None
     for nm, e in list(c.ensures.items()) + [("bounded:" + k, v) for k, v in c.bounded_ensures.items()]:
-        rw = _OldRewriter()
-        tree = rw.visit(parse_clause(e))
-        ast.fix_missing_locations(tree)
+        rw, code = _prep(e, "<ensures>")
         vals = {}
-        for k, on in enumerate(rw.olds):
+        for k, (on, used) in enumerate(rw.olds):
             try:
-                vals[f"__old{k}"] = copy.deepcopy(eval(compile(ast.Expression(on), "<old>", "eval"), env))
+                if used:
+                    if snap_env is None:
+                        snap_env = dict(env0)
+                        snap_env.update({n: copy.deepcopy(v, memo) for n, v in pre_args.items()})
+                    vals[f"__old{k}"] = _OldFn(on, used, snap_env, memo)
+                else:
+                    vals[f"__old{k}"] = copy.deepcopy(eval(compile(ast.fix_missing_locations(ast.Expression(on)), "<old>", "eval"), env), memo)
             except Exception as ex:  # noqa
                 vals[f"__old{k}"] = ex
-        compiled[nm] = (compile(tree, "<ensures>", "eval"), vals)
+        compiled[nm] = (code, vals)
+    originals = {id(o): o for o in memo.get(id(memo), [])}
+    for oid, cp in list(memo.items()):
+        if oid in originals and cp is not originals[oid]:
+            _ORIG[id(cp)] = originals[oid]
     raise_conds = {}
     for exc, cnd in c.raises.items():
         try:
-            raise_conds[exc] = bool(eval(compile(parse_clause(cnd), "<raises>", "eval"), env))
+            raise_conds[exc] = bool(eval(_prep(cnd, "<raises>")[1], env))
         except Exception as ex:  # noqa
             raise_conds[exc] = ex
     # call
